@@ -160,16 +160,28 @@ def world(tss, flags, store_schema, emit_step, script, with_step, struct):
             'schema': {'kids': {'*': {
                 'v': {'_default': 7, '_emit': True},
                 'w': {'_default': 8, '_emit': False},
-                'mass': {'_default': 1.0 * units.fg, '_emit': True}}}},
+                'mass': {'_default': 1.0 * units.fg, '_emit': True}}},
+                       # a second glob store whose sub-schema declares the
+                       # OPPOSITE emit flags: a compartment moved into it
+                       # keeps the flags it has
+                       'arch': {'*': {
+                'v': {'_default': 7, '_emit': False},
+                'w': {'_default': 8, '_emit': True}}}},
             'update': {'$n': {
                 0: {'kids': {'_add': [{'key': 'c0', 'state': {
                     'v': 1, 'mass': 0.003 * units.pg}}]}},
                 1: {'kids': {'_add': [{'key': 'c1', 'state': {}}],
                              'c0': {'v': 10}}},
-                2: {'kids': {'_delete': ['c0']}}},
+                2: {'kids': {'_delete': ['c0'], '_move': [{
+                    'source': ('c1',), 'target': 'arch'}]}}},
                 '$else': {}}}
-        topology['op'] = {'kids': ('kids',)}
+        topology['op'] = {'kids': ('kids',), 'arch': ('arch',)}
     eng = {'emit_step': emit_step}
+    if len(flags) % 2 == 1:
+        # no topology in the configuration record: the record itself (the
+        # experiment's id, name, time created) is still emitted, once,
+        # before the first row
+        eng['emit_topology'] = False
     # the initial value of the units variable is given in another
     # compatible unit and reaches the store without passing an updater
     state = {'s0': {'mass': 0.002 * units.pg}}
@@ -205,7 +217,8 @@ def flagged(spec):
 
     def pred(path):
         val = path in on
-        if spec['struct'] and path[0] == 'kids' and len(path) == 3:
+        if spec['struct'] and path[0] in ('kids', 'arch') \
+                and len(path) == 3:
             val = path[2] in ('v', 'mass')
         if path[0] == 'kids' and not spec['struct']:
             return False
@@ -475,3 +488,6 @@ def replay(case):
 
 RULE += (
     ' Every world also holds a nested branch (cell/size, cell/nucleus/dna, cell/nucleus/pores/open) with branch-level store_schema flags two levels above the leaves, and a units variable whose custom serializer is named by its first declarer only.')
+
+RULE += (
+    ' The structural worlds also MOVE a child into a second glob store whose sub-schema declares the opposite emit flags (the moved compartment keeps its own). Half of the worlds (odd number of flags) are built with emit_topology=False: one configuration record is still the first thing emitted.')
